@@ -218,7 +218,7 @@ func run(c string) (obs string) {
 			b = nb
 		case "copy":
 			nb := &xmath.BitSet{}
-			nb.Set(3)
+			nb.SetRange(5, 1000) // the receiver's old content, in high words too, must not survive Copy
 			nb.Copy(b)
 			b = nb
 		case "clone":
